@@ -430,6 +430,54 @@ Proof.
   - intros H [x y] Hin. apply bytes_eqb_eq. cbn [fst snd]. apply H, Hin.
 Qed.
 
+(* ------------------------------------------------------------------------------------------------ the written-out tables
+   are the ones FIPS 202 generates: rho offsets (t+1)(t+2)/2 along the orbit (x,y) -> (y, 2x+3y) from (1,0); pi as a gather;
+   chi / theta neighbours mod 5 in a row; the round constants from the LFSR x^8+x^6+x^5+x^4+1 (Algorithm 5).
+   Finite table equalities, decided by computation. *)
+Fixpoint set_nth (l : list N) (i : nat) (v : N) : list N :=
+  match l, i with
+  | [], _ => []
+  | _ :: t, O => v :: t
+  | a :: t, S k => a :: set_nth t k v
+  end.
+
+Fixpoint rho_offsets_gen (steps : nat) (t : nat) (x y : nat) (acc : list N) : list N :=
+  match steps with
+  | O => acc
+  | S k => rho_offsets_gen k (S t) y ((2 * x + 3 * y) mod 5)
+             (set_nth acc (x + 5 * y) (N.of_nat (((t + 1) * (t + 2) / 2) mod 64)))
+  end.
+Definition fips_rho_offsets : list N := rho_offsets_gen 24 0 1 0 (repeat 0%N 25).
+
+Definition fips_rho_pi_table : list (nat * N) :=
+  map (fun j => let X := (j mod 5)%nat in let Y := (j / 5)%nat in
+                let src := ((X + 3 * Y) mod 5 + 5 * X)%nat in (src, nthN fips_rho_offsets src)) (seq 0 25).
+
+Definition fips_chi_table : list (nat * nat * nat) :=
+  map (fun i => let x := (i mod 5)%nat in let y := (i / 5)%nat in (i, ((x + 1) mod 5 + 5 * y)%nat, ((x + 2) mod 5 + 5 * y)%nat)) (seq 0 25).
+
+Definition lfsr_step (r : list bool) : list bool :=
+  match r with
+  | [r0; r1; r2; r3; r4; r5; r6; r7] => [r7; r0; r1; r2; xorb r3 r7; xorb r4 r7; xorb r5 r7; r6]
+  | _ => r
+  end.
+Definition fips_rc_bit (t : nat) : bool := hd false (Nat.iter (t mod 255) lfsr_step [true; false; false; false; false; false; false; false]).
+Definition fips_round_constant (ir : nat) : N :=
+  fold_left (fun acc j => if fips_rc_bit (j + 7 * ir) then N.lor acc (N.shiftl 1 (N.of_nat (2 ^ j - 1))) else acc) (seq 0 7) 0%N.
+
+Theorem keccak_tables_are_fips202 :
+  rho_pi_table = fips_rho_pi_table /\
+  (forall x y, (x < 5)%nat -> (y < 5)%nat -> fst (nth (y + 5 * ((2 * x + 3 * y) mod 5)) rho_pi_table (0%nat, 0%N)) = (x + 5 * y)%nat) /\
+  chi_table = fips_chi_table /\
+  lane_col = map (fun i => (i mod 5)%nat) (seq 0 25) /\
+  theta_d_src = map (fun x => (((x + 4) mod 5)%nat, ((x + 1) mod 5)%nat)) (seq 0 5) /\
+  round_constants = map fips_round_constant (seq 0 24).
+Proof.
+  repeat apply conj; try (vm_compute; reflexivity).
+  intros x y Hx Hy.
+  do 5 (destruct x as [|x]; [do 5 (destruct y as [|y]; [vm_compute; reflexivity|]); lia|]). lia.
+Qed.
+
 (* ------------------------------------------------------------------------------------------------ summary used by props/C04.v *)
 (* after each of the four steps of a round, and after the xor of a block, the state is still 25 words below 2^64 *)
 Theorem keccak_steps_ok a : state_ok a ->
